@@ -1,7 +1,7 @@
 #!/bin/bash
 # usage: confirm_seed.sh <Cxx> <k> ; confirms a seeded change in a scratch worktree and stores it under /verif/seeded/
 P=$1; K=$2; ROUND=${3:-1}
-if [ "$ROUND" = "8" ]; then SRC=/tmp/seed8_$P/out; IDX=$((K+14)); [ "$P" = "C12" ] && IDX=$((K+16)); elif [ "$ROUND" = "7" ]; then SRC=/tmp/seed7_$P/out; IDX=$((K+12)); [ "$P" = "C12" ] && IDX=$((K+14)); elif [ "$ROUND" = "6" ]; then SRC=/tmp/seed6_$P/out; IDX=$((K+10)); [ "$P" = "C12" ] && IDX=$((K+11)); elif [ "$ROUND" = "5" ]; then SRC=/tmp/seed5_$P/out; IDX=$((K+8)); [ "$P" = "C12" ] && IDX=$((K+9)); elif [ "$ROUND" = "4" ]; then SRC=/tmp/seed4_$P/out; IDX=$((K+6)); elif [ "$ROUND" = "3" ]; then SRC=/tmp/seed3_$P/out; IDX=$((K+4)); elif [ "$ROUND" = "2" ]; then SRC=/tmp/seed2_$P/out; IDX=$((K+2)); else SRC=/tmp/seed_$P/out; IDX=$K; fi
+if [ "$ROUND" = "9" ]; then SRC=/tmp/seed9_$P/out; IDX=$((K+16)); [ "$P" = "C12" ] && IDX=$((K+18)); elif [ "$ROUND" = "8" ]; then SRC=/tmp/seed8_$P/out; IDX=$((K+14)); [ "$P" = "C12" ] && IDX=$((K+16)); elif [ "$ROUND" = "7" ]; then SRC=/tmp/seed7_$P/out; IDX=$((K+12)); [ "$P" = "C12" ] && IDX=$((K+14)); elif [ "$ROUND" = "6" ]; then SRC=/tmp/seed6_$P/out; IDX=$((K+10)); [ "$P" = "C12" ] && IDX=$((K+11)); elif [ "$ROUND" = "5" ]; then SRC=/tmp/seed5_$P/out; IDX=$((K+8)); [ "$P" = "C12" ] && IDX=$((K+9)); elif [ "$ROUND" = "4" ]; then SRC=/tmp/seed4_$P/out; IDX=$((K+6)); elif [ "$ROUND" = "3" ]; then SRC=/tmp/seed3_$P/out; IDX=$((K+4)); elif [ "$ROUND" = "2" ]; then SRC=/tmp/seed2_$P/out; IDX=$((K+2)); else SRC=/tmp/seed_$P/out; IDX=$K; fi
 DST=/verif/seeded/${P}_$IDX
 WT=/tmp/conf_${P}_$IDX
 [ -f $SRC/patch$K.diff ] || { echo "$P $K: no patch"; exit 0; }
